@@ -6,10 +6,16 @@ region with a real MessageHandler and a recording circuit, on a private virtual-
 parcel indices of every overlay, the requests on the wire, what every user call returns and what
 get_parcel_at() says for every cell are compared with what TLC printed for that edge.
 
-The grid is scaled down to the model's N x N through a SUBCLASS that overrides the documented class
-constants (GRIDS_PER_EDGE, GRID_STEP); nothing at module level is patched.  For models whose chunk is one
-grid row (N = 4) a sample of the edges is replayed a second time into the unmodified class at the real
-64 x 64 size, every model cell blown up to a 16 x 16 block.
+The grid is scaled down to the model's N x N (and, in models that say chunks = 2, NUM_CHUNKS to 2) through a
+SUBCLASS that overrides the documented class constants; nothing at module level is patched.  For the 4 x 4
+models a sample of the edges is replayed a second time into the unmodified class at the real 64 x 64 size,
+every model cell blown up to a 16 x 16 block (a model chunk then travels as 4 / chunks real messages).
+
+The specification carries a `Bugs` constant: {"P1", "P2"} reproduces two behaviours of the pinned tree that
+the design does not intend (see ParcelOverlay.tla), {} is the intended design.  section() runs the export with
+Bugs = AS_IS, so that the unchanged tree shows no divergence, and model-checks the intended design next to it.
+
+An implementation that does not return is interrupted by a CPU-time watchdog and reported as an observation.
 """
 from __future__ import annotations
 
@@ -345,18 +351,25 @@ class _Stuck(KeyboardInterrupt):
 STUCK_AFTER = 3.0     # CPU seconds for one replayed history (they take milliseconds; 64 x 64 ones tens of milliseconds)
 
 
+_FIRED = [False]
+
+
 def _watchdog(seconds):
+    """Interrupts implementation code every `seconds` of CPU time until switched off (0).  Event.notify swallows every
+    exception of a handler, the watchdog's too: the flag tells the driver that it fired."""
     import signal
 
     def on_alarm(signum, frame):
+        _FIRED[0] = True
         raise _Stuck()
     # CPU time of this process, not wall time: a loaded machine must not look like a hanging implementation
     if seconds:
+        _FIRED[0] = False
         signal.signal(signal.SIGVTALRM, on_alarm)
-        signal.setitimer(signal.ITIMER_VIRTUAL, seconds)
+        signal.setitimer(signal.ITIMER_VIRTUAL, seconds, seconds)
     else:
         signal.setitimer(signal.ITIMER_VIRTUAL, 0)
-        signal.signal(signal.SIGVTALRM, signal.SIG_DFL)
+        signal.signal(signal.SIGVTALRM, signal.SIG_IGN)
 
 
 def _replay(items):
@@ -383,8 +396,12 @@ def _replay(items):
                 for pe in g.path_to(start) + pre:
                     hist.append(pe["act"])
                     impl.step(pe["act"], observe=False)
+                    if _FIRED[0]:
+                        raise _Stuck()
                 hist.append(e["act"])
                 got = impl.step(e["act"])
+                if _FIRED[0]:
+                    raise _Stuck()
             except _Stuck:
                 stuck = True
                 got = {"raised": "does not return (%.0f s of CPU) in event %d of the history; %d further histories of this batch not replayed"
@@ -534,12 +551,15 @@ def _run_models(chk: Check, models, bugs):
     return [graphs[k] for k in range(len(models))]
 
 
-def section(chk: Check, size: str = None, cap_pairs: int = 3000, bugs=AS_IS, models=None):
+def section(chk: Check, size: str = None, cap_pairs: int = None, bugs=AS_IS, models=None):
     """size: "quick" | "thorough" (default: the tier of the check), or pass `models`, a list like MODELS[...].
     `bugs`: the as-is behaviours the specification is to model (default: those of the pinned tree, so that the unchanged
     tree shows no divergence); bugs=() compares the implementation with the intended design."""
     global _GS
-    models = models or MODELS[size or chk.tier]
+    size = size or chk.tier
+    models = models or MODELS[size]
+    if cap_pairs is None:
+        cap_pairs = 800 if size == "quick" else 3000      # merge pairs per model
     per_action = {a: 0 for a in ACTIONS}
     sites = {k: 0 for k in ("overlay_completed", "overlay_changed", "overlay_resent_unchanged", "parcel_count_changed",
                             "answer_matched", "answer_unmatched", "answer_rebinds", "download_finished", "download_finished_stale",
